@@ -64,6 +64,10 @@ theorem canonPos_sound (opq : String → List (F × Nat) → List (Kid K F) → 
       by_cases h : val vals f = 0
       · simp [canonPos, evalBody, evalC, itemSpans, h, ih']
       · simp [canonPos, evalBody, evalC, evalP, itemSpans, h, firstStart]
+    | tokIfUnset f n g =>
+      by_cases h : val vals g = 0
+      · simp [canonPos, evalBody, evalC, evalP, itemSpans, h, firstStart]
+      · simp [canonPos, evalBody, evalC, itemSpans, h, ih']
     | child f =>
       simp only [itemWF] at hit
       cases hk : kidsAt kids f with
@@ -141,6 +145,10 @@ theorem canonEndR_sound (opq : String → List (F × Nat) → List (Kid K F) →
       by_cases h : val vals f = 0
       · simp [canonEndR, evalBody, evalC, itemSpans, h, ih']
       · simp [canonEndR, evalBody, evalC, evalP, itemSpans, h, lastStop]
+    | tokIfUnset f n g =>
+      by_cases h : val vals g = 0
+      · simp [canonEndR, evalBody, evalC, evalP, itemSpans, h, lastStop]
+      · simp [canonEndR, evalBody, evalC, itemSpans, h, ih']
     | child f =>
       simp only [itemWF] at hit
       cases hk : kidsAt kids f with
@@ -202,6 +210,58 @@ theorem canonEnd_sound (opq : String → List (F × Nat) → List (Kid K F) → 
     evalBody opq vals kids (canonEnd items) = some (lastStop (elems vals kids items)) := by
   have := canonEndR_sound opq vals kids items.reverse (by rw [layoutWF_reverse]; exact hwf)
   simpa [canonEnd] using this
+
+theorem mem_of_lookup {α β} [BEq α] [LawfulBEq α] (a : α) (b : β) :
+    ∀ l : List (α × β), l.lookup a = some b → (a, b) ∈ l := by
+  intro l
+  induction l with
+  | nil => intro h; simp [List.lookup] at h
+  | cons p r ih =>
+    intro h
+    obtain ⟨x, y⟩ := p
+    simp only [List.lookup] at h
+    by_cases hx : a == x
+    · simp only [hx] at h
+      have : a = x := eq_of_beq hx
+      cases h; subst this; exact List.mem_cons_self
+    · simp only [hx] at h
+      exact List.mem_cons_of_mem _ (ih h)
+
+/-- `prune` does not change what a body evaluates to, as long as the recorded outcomes are the
+actual ones. -/
+theorem prune_sound (opq : String → List (F × Nat) → List (Kid K F) → Option Nat)
+    (vals : List (F × Nat)) (kids : List (Kid K F)) :
+    ∀ (b : Body F) (known : List (Cond F × Bool)),
+      (∀ p ∈ known, evalC vals kids p.1 = p.2) →
+      evalBody opq vals kids (prune known b) = evalBody opq vals kids b := by
+  intro b
+  induction b with
+  | ret e => intro known _; rfl
+  | opaque n => intro known _; rfl
+  | ite c t e iht ihe =>
+    intro known hk
+    simp only [prune]
+    cases hl : known.lookup c with
+    | none =>
+      simp only [evalBody]
+      cases hc : evalC vals kids c
+      · simp only [Bool.false_eq_true, if_false]
+        apply ihe ((c, false) :: known)
+        intro p hp
+        cases hp with
+        | head => exact hc
+        | tail _ h => exact hk p h
+      · simp only [if_true]
+        apply iht ((c, true) :: known)
+        intro p hp
+        cases hp with
+        | head => exact hc
+        | tail _ h => exact hk p h
+    | some v =>
+      have hv : evalC vals kids c = v := hk (c, v) (mem_of_lookup c v known hl)
+      cases v
+      · simp only [evalBody, hv, Bool.false_eq_true, if_false]; exact ihe known hk
+      · simp only [evalBody, hv, if_true]; exact iht known hk
 
 /-! ### Elements in source order: nesting and non-overlap -/
 
